@@ -340,6 +340,11 @@ static void history(vt::Rng& r, int nops) {
               c2.fill_rect(0, 0, W, H, 5, 6, 7, 255);
             }
             Image moved(std::move(c1));
+            // copy assignment whose source is the canvas itself must leave it as it is
+            {
+              const Image& self = dst;
+              dst = self;
+            }
             if (!eq) dst.fill_rect(0, 0, W, H, 66, 66, 66, 255);  // make an unequal copy visible in the trace
             evop = "identity";
           } else if (op == "add_alpha") {
